@@ -78,19 +78,18 @@ theorem pacing_lower_bound_target (cfg : Cfg) (tbl : List Nat) (ops : List Op) (
     _ = (idx * tk + idx) * n := by rw [← Nat.mul_assoc, Nat.mul_add, Nat.mul_one]
     _ ≤ (now - (TM.run toi pre).tStart + idx) * n := Nat.mul_le_mul_right _ (by omega)
 
-/-- Degenerate inputs are safe: no Rust panic in any history (the only remaining panic site of the model,
-    the `u32` addition `fdtid + 1` in `publish`, needs `fdt_start_id < u32::MAX`), and `read` always returns.
-    An empty object with a target duration / deadline is simply not paced (repaired defect D4), a deadline in
-    the past gives tick 0, which never blocks (`pacing_lower_bound` degenerates to `start ≤ now`). -/
-theorem degenerate_safe (cfg : Cfg) (tbl : List Nat) (ops : List Op) (h : cfg.fdtStartId + 1 < 4294967296) :
+/-- Degenerate inputs are safe: no Rust panic in any history, for any configuration (incl. empty objects with
+    a target duration / deadline - repaired defect D4: not paced -, `fdt_start_id = u32::MAX` - repaired
+    overflow of `fdtid + 1` -, deadlines in the past, zero delays / intervals / durations), and `read` always
+    returns.  A deadline in the past gives tick 0, which never blocks (`pacing_lower_bound` degenerates to
+    `start ≤ now`); a zero delay needs the clock to advance by 1 ns (`now - end > 0`).
+    After the two repairs no transition of the model sets `panic` any more, so the first half rests on the
+    review of the scheduler's arithmetic stated in `Sched.lean` and on the correspondence run (every PANIC of
+    the real code is an observation). -/
+theorem degenerate_safe (cfg : Cfg) (tbl : List Nat) (ops : List Op) :
     (run (init cfg tbl) ops).panic = none ∧
     ∀ now ticks, (read (run (init cfg tbl) ops) now ticks).2 ≠ Out.hang :=
-  ⟨safe_run cfg tbl ops h, fun now ticks => read_no_hang _ now ticks⟩
-
-/-- the excluded configuration does panic (debug profile): `fdt_start_id = u32::MAX` -/
-theorem degenerate_start_id_panics :
-    (run (init { mode := .full, fdtCarousel := .delay 0, fdtDuration := 1, fdtStartId := 4294967295, queues := [] } [])
-      [.publish 0]).panic ≠ none := by decide
+  ⟨safe_run cfg tbl ops, fun now ticks => read_no_hang _ now ticks⟩
 
 /-! F14 (finding, documented behaviour): with `max_transfer_count = 2` and a carousel delay the literal clause
     fails - the second transfer of a burst starts at the very instant the first one ended. -/
@@ -104,7 +103,10 @@ theorem carousel_gap_literal_fails_m2 :
         (trace cfg1 [1] histF14).drop 4 ∧
     (TM.run 1 ((trace cfg1 [1] histF14).drop 2)).lastEnd = some 5 := by decide
 
-/-! non-vacuity -/
+/-! non-vacuity: an empty object with a target duration is transferred (1 packet carrying B) -/
+def empty : AddArgs := { prio := 0, nSym := 0, maxCount := 1, carousel := none, start := none, target := some (.dur 30), allowStop := false }
+example : Ev.pkt 5 0 1 0 true ∈ trace cfg1 [1] [.add empty, .publish 5, .read 5 [], .read 5 []] := by decide
+
 def paced : AddArgs := { prio := 0, nSym := 3, maxCount := 1, carousel := some (.delay 100), start := some 7, target := some (.dur 30), allowStop := false }
 def histP : List Op :=
   [.add paced, .publish 5, .read 5 [(1, 10)], .read 6 [(1, 10)], .read 7 [(1, 10)], .read 8 [(1, 10)], .read 17 [(1, 10)],
